@@ -1,5 +1,7 @@
 import ObiVerif.Model.Tax
 import ObiVerif.Model.TaxLoad
+import ObiVerif.Model.TaxSeq
+import ObiVerif.Model.TaxRender
 import ObiVerif.Driver.Util
 /-!
 line protocol for C14
@@ -13,6 +15,11 @@ queries: `path:x` `lca:x:y` `sub:x:y` `rank:x:r` `has:x:r` `res:x` `val:s` `rt:c
 `rr:r,r:s` `flt:r,r:c,c:i,i:s` `rs:c:s` `sr:r:s` `wl:k=w,k=w` `wls:s` (s = taxid attribute of the sequence or `-`; r = rank in hex)
 `str:<hex>` (Taxon(string)) `rss:<hex>:s` (IsSubCladeOfSlot on a string attribute) `isub:c` `irank:r` `ibel:c,c`
 (iterators drained, sorted) `tpath:s` (taxonomic_path, hex) `name:x` (scientific name, hex) `state` (nodes and aliases)
+
+second pass (sequence level entry points of sequence_predicate.go / sequence_methods.go / sequence_workers.go, `Model/TaxSeq.lean`):
+`vf:s` (IsAValidTaxon(true): answer `:` taxid attribute afterwards) `sp:c:s` (Taxonomy.IsSubCladeOf(c) closure) `hq:r:s`
+(Taxonomy.HasRequiredRank(r) closure) `sw:k:s` (k = `sp` `ge` `fa`: MakeSetSpecies/Genus/FamilyWorker, `r<hex>`:
+MakeSetTaxonAtRankWorker; answer `none`, `-1/<hex NA>` or `taxid/<hex name>`) `sn:s` (SetScientificName) `tr:s` (SetTaxonomicRank)
 
 `dump N<hex nodes.dmp> M<hex names.dmp> G<hex merged.dmp> [n… a…] q…` : the three files are loaded by the model of
 `ncbitaxdump.LoadNCBITaxDump` (`Model/TaxLoad.lean`); the `n`/`a` words (the tree the generator declared, used by the
@@ -124,6 +131,35 @@ def queryX (c : Ctx) (q : String) : Option String :=
     match resolve c.t x with
     | some x => pure (hex (c.name x))
     | none => pure "unk"
+  | ["vf", s0] => do
+    let s ← seqAttr s0
+    let r := TaxSeq.isValidTaxonFix c.t true (seqTaxid s)
+    pure (showBool r.1 ++ ":" ++ (match r.2 with | some v => toString v | none => s0))
+  | ["sp", x, s] => do
+    let x ← x.toNat?
+    let s ← seqAttr s
+    pure (showRes showBool (TaxSeq.isSubCladeOfPred c.t c.fuel x (seqTaxid s)))
+  | ["hq", r, s] => do
+    let r ← rankOf r
+    let s ← seqAttr s
+    pure (showRes showBool (TaxSeq.hasRequiredRankPred c.t c.fuel r (seqTaxid s)))
+  | ["sw", k, s] => do
+    let s ← seqAttr s
+    let res ← (if k = "sp" then some (TaxSeq.setSpecies c.t c.fuel c.name (seqTaxid s))
+      else if k = "ge" then some (TaxSeq.setGenus c.t c.fuel c.name (seqTaxid s))
+      else if k = "fa" then some (TaxSeq.setFamily c.t c.fuel c.name (seqTaxid s))
+      else if k.startsWith "r" then (rankOf (k.drop 1).toString).map fun r => TaxSeq.setTaxonAtRankWorker c.t c.fuel c.name r (seqTaxid s)
+      else none)
+    pure (showRes (fun
+      | none => "none"
+      | some (none, nm) => "-1/" ++ hex nm
+      | some (some z, nm) => s!"{z}/{hex nm}") res)
+  | ["sn", s] => do
+    let s ← seqAttr s
+    pure (showRes hex (TaxSeq.setScientificName c.t c.name (seqTaxid s)))
+  | ["tr", s] => do
+    let s ← seqAttr s
+    pure (showRes hex (TaxSeq.setTaxonomicRank c.t c.rankB (seqTaxid s)))
   | ["state"] =>
     let ns := c.sorted.filterMap fun x => (c.t.node x).map fun n =>
       s!"{x}:{n.parent}:{hex (c.rankB x)}:{hex (c.name x)}"
@@ -206,6 +242,29 @@ def query (t : Taxo) (fuel : Nat) (q : String) : Option String :=
     pure (showRes showOpt (weightedLca t fuel kws))
   | _ => none
 
+/-- every order in which Go's map iteration can yield the keys -/
+def insertAll {α : Type} (a : α) : List α → List (List α)
+  | [] => [[a]]
+  | b :: r => (a :: b :: r) :: (insertAll a r).map (b :: ·)
+
+def perms {α : Type} : List α → List (List α)
+  | [] => [[]]
+  | a :: r => (perms r).flatMap (insertAll a)
+
+/-- `wlo`: the set of the answers of `Taxonomy.LCA(…, 1.0)` over the iteration orders of the `merged_taxid` map -/
+def queryWlo (t : Taxo) (fuel : Nat) (q : String) : Option String :=
+  match (q.drop 1).toString.splitOn ":" with
+  | ["wlo", kws] => do
+    let kws ← kwList kws
+    if kws.isEmpty || kws.length > 4 then none else
+    let rs := (perms kws).map (weightedLca t fuel)
+    match rs.find? (fun r => match r with | .error _ => true | .ok _ => false) with
+    | some (.error e) => pure (showBad e)
+    | _ =>
+      if rs.any (fun r => match r with | .ok none => true | _ => false) then pure "nil" else
+      pure (showIds (sortDedup (rs.filterMap fun r => match r with | .ok (some z) => some z | _ => none)))
+  | _ => none
+
 def build (nodes : List (Nat × Node)) (aliases : List (Nat × Nat)) : Taxo :=
   let mx := nodes.foldl (fun m p => max m p.1) 0
   let arr : Array (Option Node) := nodes.foldl (fun a p => a.set! p.1 (some p.2)) (Array.replicate (mx + 1) none)
@@ -214,9 +273,39 @@ def build (nodes : List (Nat × Node)) (aliases : List (Nat × Nat)) : Taxo :=
 def queryAll (c : Ctx) (q : String) : Option String :=
   match queryX c q with
   | some r => some r
-  | none => query c.t c.fuel q
+  | none => match queryWlo c.t c.fuel q with
+    | some r => some r
+    | none => query c.t c.fuel q
 
 def decName (x : Nat) : TaxLoad.Bytes := 110 :: TaxLoad.showNat x
+
+/-- the queries on a loaded dump -/
+def runLoaded (L : TaxLoad.Loaded) (qs : List String) : String :=
+  let t := L.taxo
+  if !reindexOk t then "reindex-err" else
+  let c : Ctx := { t := t, fuel := L.nodes.length + 1, name := L.sciName,
+                   rankB := fun x => ((TaxLoad.lookupNode L.nodes x).map (·.2)).getD [],
+                   sorted := sortDedup t.ids, aliasKeys := sortDedup (L.aliases.map (·.1)) }
+  match qs.mapM (queryAll c) with
+  | some rs => if rs.isEmpty then "-" else joinSp rs
+  | none => "bad-op"
+
+/-- a declared node `n<id>:<parent>:<rankhex>` as a line of nodes.dmp in the NCBI layout (the two other columns the
+harness writes: an empty one and `8`) -/
+def nodeRowOf (w : String) : Option TaxLoad.NodeRow :=
+  match (w.drop 1).toString.splitOn ":" with
+  | [i, p, r] => do
+    let i ← i.toNat?
+    let p ← p.toNat?
+    let r ← unhex r
+    pure ⟨i, p, r, [[], [56]]⟩
+  | _ => none
+
+/-- the hypotheses of `loadDump_render` on the declared rows (decidable) -/
+def cleanRows (rows : List TaxLoad.NodeRow) (aliases : List (Nat × Nat)) : Bool :=
+  rows.all (fun r => decide (r.id < 2 ^ 63) && decide (r.parent < 2 ^ 63) && decide (TaxLoad.NoSep r.rank) &&
+    decide (TaxLoad.trimSpace r.rank = r.rank)) &&
+  aliases.all (fun a => decide (a.1 < 2 ^ 63) && decide (a.2 < 2 ^ 63))
 
 def runDump (ws : List String) : String :=
   match ws with
@@ -226,19 +315,21 @@ def runDump (ws : List String) : String :=
     | some nb, some mb, some gb =>
       if !((nb ++ mb ++ gb).all fun c => c.toNat < 128) then "bad-op" else
       let qs := rest.filter (·.startsWith "q")
-      if !(rest.all fun w => w.startsWith "q" || w.startsWith "n" || w.startsWith "a") then "bad-op" else
+      if !(rest.all fun w => w.startsWith "q" || w.startsWith "n" || w.startsWith "a" || w = "L") then "bad-op" else
+      -- `L`: the generator says nodes.dmp / merged.dmp are the declared tree in the NCBI layout: they must be, byte for
+      -- byte, `renderNodes` / `renderMerged` of the declarations (then `loadDump_render` applies to these very files)
+      let layoutOk : Bool :=
+        if rest.contains "L" then
+          match (rest.filter (·.startsWith "n")).mapM nodeRowOf, (rest.filter (·.startsWith "a")).mapM parseAlias with
+          | some rows, some aliases =>
+            cleanRows rows aliases && TaxLoad.renderNodes rows == nb && TaxLoad.renderMerged aliases == gb
+          | _, _ => false
+        else true
+      if !layoutOk then "render-mismatch" else
       match TaxLoad.loadDump nb mb gb with
       | .error .panic => "panic"
       | .error .unmodelled => "unmodelled"
-      | .ok L =>
-        let t := L.taxo
-        if !reindexOk t then "reindex-err" else
-        let c : Ctx := { t := t, fuel := L.nodes.length + 1, name := L.sciName,
-                         rankB := fun x => ((TaxLoad.lookupNode L.nodes x).map (·.2)).getD [],
-                         sorted := sortDedup t.ids, aliasKeys := sortDedup (L.aliases.map (·.1)) }
-        match qs.mapM (queryAll c) with
-        | some rs => if rs.isEmpty then "-" else joinSp rs
-        | none => "bad-op"
+      | .ok L => runLoaded L qs
     | _, _, _ => "bad-op"
   | _ => "bad-op"
 
@@ -271,11 +362,34 @@ def runTax (ws : List String) : String :=
       | none => "bad-op"
     | _, _ => "bad-op"
 
-/-- `tax` (API) and `taxd` (dump directory) load the same data: one model -/
+/-- `taxd` : the harness writes the declared tree as a dump directory in the NCBI layout (names `n<id>` + a synonym
+line per taxon) and loads it with `LoadNCBITaxDump`; the model renders the same declarations with `renderNodes` /
+`renderNames` / `renderMerged` and loads the bytes with `loadDump` (up to 300 nodes: the byte level functions are
+not tail recursive), which must agree with the API-built model `runTax` uses for larger trees -/
+def runTaxd (ws : List String) : String :=
+  let ns := ws.filter (·.startsWith "n")
+  let as := ws.filter (·.startsWith "a")
+  let qs := ws.filter (·.startsWith "q")
+  if ns.length + as.length + qs.length ≠ ws.length then "bad-op" else
+  if ns.length > 300 then runTax ws else
+  match ns.mapM nodeRowOf, as.mapM parseAlias with
+  | some rows, some aliases =>
+    if (rows.map (·.id)).eraseDups.length ≠ rows.length then "bad-op" else
+    if !cleanRows rows aliases then "bad-op" else
+    let nrows : List TaxLoad.NameRow := rows.flatMap fun r =>
+      [⟨r.id, decName r.id, [], TaxLoad.sciClass⟩,
+       ⟨r.id, [115, 121, 110, 32] ++ TaxLoad.showNat r.id, [], [115, 121, 110, 111, 110, 121, 109]⟩]
+    match TaxLoad.loadDump (TaxLoad.renderNodes rows) (TaxLoad.renderNames nrows) (TaxLoad.renderMerged aliases) with
+    | .error .panic => "panic"
+    | .error .unmodelled => "unmodelled"
+    | .ok L => runLoaded L qs
+  | _, _ => "bad-op"
+
+/-- `tax` (API) and `taxd` (dump directory) load the same data -/
 def run (line : String) : String :=
   match words line with
   | "tax" :: ws => runTax ws
-  | "taxd" :: ws => runTax ws
+  | "taxd" :: ws => runTaxd ws
   | "dump" :: ws => runDump ws
   | _ => "bad-op"
 
